@@ -490,3 +490,25 @@ for _n in _c11_opt:
     _by[_n]['props']['C11'] = 'opt'
 
 
+
+
+# =============================================================================== harnesses outside every registered command
+# Written and compiled on every run, but not decided within the memory / time limits of this sandbox (measured);
+# they are *outside the claim* (DESIGN 10.5) and can be run with `bin/check DEV --only <name>`.
+EXPERIMENTAL = {
+    'c02_v5_puback': '> 8 GB / > 20 min', 'c02_v5_pubrec': '> 8 GB', 'c02_v5_pubrel': '> 8 GB', 'c02_v5_pubcomp': '> 8 GB',
+    'c02_v5_publish_q0': 'time-out 20 min', 'c02_v5_publish_q1': 'time-out 20 min, 8.6 GB',
+    'c02_v5_puback_props127': 'not measured (XL)', 'c02_v5_puback_props128': 'not measured (XL)', 'c02_v5_pubrec_props128': 'not measured (XL)',
+    'c02_v5_pubrel_props128': 'not measured (XL)', 'c02_v5_pubcomp_props128': 'not measured (XL)',
+    'c04_v5_puback_n3': 'time-out 20 min', 'c04_v5_pubrec_n3': 'time-out 20 min', 'c04_v5_pubrel_n3': 'time-out 20 min', 'c04_v5_pubcomp_n3': 'time-out 20 min',
+    'c04_v5_publish_struct': 'time-out 20 min', 'c04_v5_connect_prefixes': 'time-out 20 min', 'c04_subscribe_family_prefixes': 'time-out 20 min, 12.5 GB',
+    'c04_suback_family_prefixes': 'time-out 20 min', 'c02_v311_connect': '> 12 GB', 'c02_v311_subscribe_family': 'time-out 20 min / 12 GB',
+    'c13_alias_send_hist2': '> 12 GB (String-keyed alias maps)', 'c09_f2_s4_error_then_frame': 'time-out 40 min (superseded by c09_f3_*)',
+    'c09_f1_n2': '> 16 GB (symbolic allocation sizes)', 'c09_f1_n3': '> 16 GB', 'c09_f1_n4': 'not attempted',
+    'st_recv_publish_v5_alias': '> 23 GB', 'st_recv_publish_v5_recv_max': '> 16 GB / 38 min', 'st_send_connack_v5_resume_count': '> 16 GB / 35 min',
+    'st_send_publish_v5_alias_resolve': '> 23 GB', 'st_send_publish_v5_manual_alias_bind': '> 23 GB', 'st_undetermined_first_packet': '> 16 GB',
+    'st_dispatch_client_v5': '> 16 GB', 'st_dispatch_server_v5': '> 16 GB', 'st_send_publish_v5_never_dropped': '> 16 GB',
+}
+for _h in HARNESSES:
+    if _h['name'] in EXPERIMENTAL:
+        _h['props'] = {}
